@@ -7,16 +7,6 @@ From Typ Require Import Lib.Base Lists.Heap Lists.ListModel Lists.ListSpec.
 
 (* ================= Part A: projections and primitive effects ================= *)
 
-Definition size (s : state) : nat := length (elems s).
-
-Definition proj {A} (g : elem -> A) (d : A) (s : state) (j : nat) : A :=
-  match nth_error (elems s) j with Some c => g c | None => d end.
-
-Definition nx := proj e_next None.
-Definition pv := proj e_prev None.
-Definition ow := proj e_list None.
-Definition vl := proj e_val 0%Z.
-
 Definition upd {A} (f : nat -> A) (i : nat) (v : A) : nat -> A :=
   fun j => if Nat.eqb j i then v else f j.
 
@@ -110,13 +100,6 @@ Lemma vl_set_list : vl (st_upd (set_list v) s i) j = vl s j. Proof. t. Qed.
 End UpdRules.
 
 (* ================= Part B: doubly linked chains (pure) ================= *)
-
-(* a -> x1 -> ... -> xn -> b linked both ways; the list of a List is [chain root xs root] *)
-Fixpoint chain (nx pv : nat -> ptr) (a : nat) (xs : list nat) (b : nat) : Prop :=
-  match xs with
-  | [] => nx a = Some b /\ pv b = Some a
-  | x :: t => nx a = Some x /\ pv x = Some a /\ chain nx pv x t b
-  end.
 
 Ltac upd_tac :=
   unfold upd in *;
@@ -357,29 +340,6 @@ Proof.
 Qed.
 
 (* ================= Part C: the representation invariant ================= *)
-
-Definition alen (o : option (list nat)) : Z :=
-  match o with None => 0%Z | Some xs => Z.of_nat (length xs) end.
-Definition is_root (a : astate) (e : nat) : Prop := In e (map fst (a_lists a)).
-
-(* [Rep s a]: the heap s represents the abstract state a.
-   - every list record points to its sentinel cell and stores the length of its sequence;
-   - sentinels are distinct cells that belong to no list;
-   - a zero-value list has nil links in its sentinel;
-   - an initialised list is a chain sentinel -> xs -> sentinel linked both ways, xs has no
-     repetition, and exactly the members of xs have Element.list = this list;
-   - a cell that is in no list (removed, or never inserted) and is no sentinel has nil links. *)
-Record Rep (s : state) (a : astate) : Prop := {
-  R_vals : size s = length (a_vals a) /\ forall j, j < size s -> nth_error (a_vals a) j = Some (vl s j);
-  R_lsts : length (lsts s) = length (a_lists a) /\
-           forall l r o, nth_error (a_lists a) l = Some (r, o) -> nth_error (lsts s) l = Some (LRec r (alen o));
-  R_roots : NoDup (map fst (a_lists a)) /\ forall e, is_root a e -> e < size s /\ ow s e = None;
-  R_uninit : forall l r, nth_error (a_lists a) l = Some (r, None) -> nx s r = None /\ pv s r = None;
-  R_init : forall l r xs, nth_error (a_lists a) l = Some (r, Some xs) ->
-           chain (nx s) (pv s) r xs r /\ NoDup xs /\ forall e, In e xs -> ow s e = Some l;
-  R_own : forall e l, ow s e = Some l -> exists r xs, nth_error (a_lists a) l = Some (r, Some xs) /\ In e xs;
-  R_free : forall e, ow s e = None -> ~ is_root a e -> nx s e = None /\ pv s e = None
-}.
 
 Lemma ow_lt s e l : ow s e = Some l -> e < size s.
 Proof. intro H. apply (proj_in e_list None). unfold ow in H. congruence. Qed.
@@ -1703,4 +1663,435 @@ Proof.
   - auto.
   - exists s'. split; auto. rewrite !Sq in R'. unfold a1 in R'.
     rewrite a_set_alloc_copies_a_set in R'. exact R'.
+Qed.
+
+(* ================= Part E: histories ================= *)
+
+Definition Hok (s : state) (h : list nat) : Prop := forall e, In e h -> e < size s.
+Definition ptr_ok (s : state) (p : ptr) : Prop := match p with Some e => e < size s | None => True end.
+Definition asize (a : astate) : nat := length (a_vals a).
+
+Lemma Hok_add s h p : Hok s h -> ptr_ok s p -> Hok s (add_handle h p).
+Proof.
+  intros H P. destruct p as [e|]; simpl; auto.
+  destruct (existsb (Nat.eqb e) h); auto.
+  intros x I. apply in_app_iff in I as [I|[<-|[]]]; auto.
+Qed.
+
+Lemma Hok_mono s a s' a' h : Rep s a -> Rep s' a' -> asize a <= asize a' -> Hok s h -> Hok s' h.
+Proof.
+  intros R R' L H e I. specialize (H e I). rewrite (Rep_size _ _ R) in H. rewrite (Rep_size _ _ R'). unfold asize in L. lia.
+Qed.
+
+Lemma hnd_In h k e : hnd h k = Some e -> In e h.
+Proof. unfold hnd. destruct (k <? 0)%Z; [discriminate|]. apply nth_error_In. Qed.
+
+Lemma asize_a_set a l xs : asize (a_set a l xs) = asize a. Proof. reflexivity. Qed.
+Lemma asize_a_alloc a v : asize (a_alloc a v) = S (asize a).
+Proof. unfold asize, a_alloc; cbn [a_vals]. rewrite app_length. simpl. lia. Qed.
+Lemma asize_a_alloc_copies a ys : asize (a_alloc_copies a ys) = asize a + length ys.
+Proof. unfold asize, a_alloc_copies; cbn [a_vals]. rewrite app_length, map_length. lia. Qed.
+Lemma asize_a_newlist a o : asize (a_newlist a o) = S (asize a).
+Proof. unfold asize, a_newlist; cbn [a_vals]. rewrite app_length. simpl. lia. Qed.
+
+Lemma ok_lt (l : Z) a : (Z.to_nat l <? length (a_lists a)) = true ->
+  exists r o, nth_error (a_lists a) (Z.to_nat l) = Some (r, o).
+Proof. intro H. apply Nat.ltb_lt in H. destruct (nth_error_lt_exists _ _ H) as ([r o] & E). eauto. Qed.
+
+Lemma head_ptr_ok s a l : Rep s a -> ptr_ok s (head (a_seq a l)).
+Proof.
+  intro R. destruct (a_seq a l) as [|x t] eqn:E; simpl; auto.
+  eapply a_seq_owned_lt; eauto. rewrite E. simpl; auto.
+Qed.
+Lemma last_ptr_ok s a l : Rep s a -> ptr_ok s (last_opt (a_seq a l)).
+Proof.
+  intro R. destruct (a_seq a l) as [|x t] eqn:E; simpl; auto.
+  eapply a_seq_owned_lt; eauto. rewrite E. destruct (last_in_or x t) as [[-> _]|I]; simpl; auto.
+Qed.
+
+Lemma elem_Next_ptr_ok s a e p : Rep s a -> e < size s -> elem_Next s (Some e) = Ok p -> ptr_ok s p.
+Proof.
+  intros R He. destruct (NextPrev_sim _ _ _ R He) as [-> _]. intro E; injection E as <-.
+  unfold spec_next. destruct (owner_seq (a_lists a) e) as [xs|] eqn:Eo; simpl; auto.
+  destruct (owner_seq_Some _ _ _ Eo) as (I & l & r & H).
+  destruct (succ_in e xs) as [y|] eqn:Es; simpl; auto.
+  eapply seq_owned_lt; eauto.
+  clear -Es. induction xs as [|x t IH]; simpl in *; [discriminate|].
+  destruct (Nat.eqb x e); auto. destruct t; simpl in *; [discriminate|]. injection Es as <-. auto.
+Qed.
+
+Lemma pred_from_In p e xs y : pred_from p e xs = Some y -> p = Some y \/ In y xs.
+Proof.
+  revert p; induction xs as [|x t IH]; simpl; intros p H; [discriminate|].
+  destruct (Nat.eqb x e); auto. destruct (IH _ H) as [E|I]; auto. injection E as <-. auto.
+Qed.
+
+Lemma elem_Prev_ptr_ok s a e p : Rep s a -> e < size s -> elem_Prev s (Some e) = Ok p -> ptr_ok s p.
+Proof.
+  intros R He. destruct (NextPrev_sim _ _ _ R He) as [_ ->]. intro E; injection E as <-.
+  unfold spec_prev. destruct (owner_seq (a_lists a) e) as [xs|] eqn:Eo; simpl; auto.
+  destruct (owner_seq_Some _ _ _ Eo) as (I & l & r & H).
+  destruct (pred_in e xs) as [y|] eqn:Es; simpl; auto.
+  eapply seq_owned_lt; eauto.
+  apply pred_from_In in Es as [?|?]; [discriminate|auto].
+Qed.
+
+Theorem exec_sim op s a h :
+  Rep s a -> Hok s h -> spec_ok op a = true ->
+  exists s', step op (RState s h) = (fst (fst (spec_exec op a h)), RState s' (snd (spec_exec op a h))) /\
+             Rep s' (snd (fst (spec_exec op a h))) /\ Hok s' (snd (spec_exec op a h)).
+Proof.
+  intros R HK OK. unfold step, exec. cbn [st hs].
+  destruct op; cbn [spec_exec spec_ok] in *.
+  - (* LNew *)
+    rewrite alloc_list_eq. pose proof (alloc_list_sim _ _ R) as R'.
+    destruct (R_lsts _ _ R) as [-> _].
+    eexists. split; [reflexivity|]. split; [exact R'|].
+    eapply Hok_mono; [exact R|exact R'| |exact HK]. rewrite asize_a_newlist. lia.
+  - (* LNewInit *)
+    unfold list_New. rewrite alloc_list_eq. pose proof (alloc_list_sim _ _ R) as R1.
+    destruct (R_lsts _ _ R) as [LL _].
+    assert (H1 : nth_error (a_lists (a_newlist a None)) (length (lsts s)) = Some (fresh a, None)).
+    { unfold a_newlist; cbn [a_lists]. rewrite LL, nth_error_alloc, Nat.eqb_refl. reflexivity. }
+    destruct (init_sim _ _ _ _ _ R1 H1 (or_introl eq_refl)) as (s' & E & R').
+    rewrite E. cbn [bind]. rewrite LL.
+    assert (Ea : a_set (a_newlist a None) (length (lsts s)) [] = a_newlist a (Some [])).
+    { unfold a_set, a_newlist; cbn [a_lists a_vals]. f_equal. rewrite LL.
+      clear. induction (a_lists a) as [|x t IH]; simpl; [reflexivity|]. f_equal. exact IH. }
+    rewrite Ea in R'.
+    exists s'. split; [reflexivity|]. split; [exact R'|].
+    eapply Hok_mono; [exact R|exact R'| |exact HK]. rewrite asize_a_newlist. lia.
+  - (* LElem *)
+    rewrite alloc_elem_eq. pose proof (alloc_elem_sim _ _ v R) as R'.
+    unfold ret_ptr, sret. cbn [bind fst snd]. rewrite (Rep_fresh _ _ R).
+    eexists. split; [reflexivity|]. split; [exact R'|].
+    apply Hok_add.
+    + eapply Hok_mono; [exact R|exact R'| |exact HK]. rewrite asize_a_alloc. lia.
+    + simpl. rewrite size_st_alloc. lia.
+  - (* LInit *)
+    apply andb_true_iff in OK as [OK1 OK2].
+    destruct (ok_lt _ _ OK1) as (r & o & H).
+    assert (Ho : o = None \/ o = Some []).
+    { rewrite (a_seq_nth _ _ _ _ H) in OK2. destruct o as [[|? ?]|]; auto. discriminate. }
+    destruct (init_sim _ _ _ _ _ R H Ho) as (s' & E & R').
+    unfold ret_unit. rewrite E. cbn [bind fst snd].
+    exists s'. split; [reflexivity|]. split; [exact R'|].
+    eapply Hok_mono; [exact R|exact R'| |exact HK]. rewrite asize_a_set. lia.
+  - (* LLen *)
+    destruct (ok_lt _ _ OK) as (r & o & H).
+    rewrite (Len_sim _ _ _ _ _ R H). cbn [bind fst snd]. eauto.
+  - (* LFront *)
+    destruct (ok_lt _ _ OK) as (r & o & H).
+    rewrite (Front_sim _ _ _ _ _ R H). unfold ret_ptr, sret. cbn [bind fst snd].
+    exists s. split; [reflexivity|]. split; [exact R|]. apply Hok_add; auto. eapply head_ptr_ok; eauto.
+  - (* LBack *)
+    destruct (ok_lt _ _ OK) as (r & o & H).
+    rewrite (Back_sim _ _ _ _ _ R H). unfold ret_ptr, sret. cbn [bind fst snd].
+    exists s. split; [reflexivity|]. split; [exact R|]. apply Hok_add; auto. eapply last_ptr_ok; eauto.
+  - (* LPushFront *)
+    destruct (ok_lt _ _ OK) as (r & o & H).
+    destruct (PushFront_sim _ _ _ _ _ v R H) as (s' & E & R').
+    rewrite E. unfold ret_ptr, sret. cbn [bind fst snd].
+    exists s'. split; [reflexivity|]. split; [exact R'|].
+    apply Hok_add.
+    + eapply Hok_mono; [exact R|exact R'| |exact HK]. rewrite asize_a_set, asize_a_alloc. lia.
+    + simpl. rewrite (Rep_size _ _ R'). change (length (a_vals _)) with (asize (a_alloc a v)).
+      rewrite asize_a_alloc. unfold fresh, asize. lia.
+  - (* LPushBack *)
+    destruct (ok_lt _ _ OK) as (r & o & H).
+    destruct (PushBack_sim _ _ _ _ _ v R H) as (s' & E & R').
+    rewrite E. unfold ret_ptr, sret. cbn [bind fst snd].
+    exists s'. split; [reflexivity|]. split; [exact R'|].
+    apply Hok_add.
+    + eapply Hok_mono; [exact R|exact R'| |exact HK]. rewrite asize_a_set, asize_a_alloc. lia.
+    + simpl. rewrite (Rep_size _ _ R'). change (length (a_vals _)) with (asize (a_alloc a v)).
+      rewrite asize_a_alloc. unfold fresh, asize. lia.
+  - (* LInsertBefore *)
+    destruct (ok_lt _ _ OK) as (r & o & H).
+    destruct (hnd h m) as [m0|] eqn:Eh; cbn [spanic fst snd]; [|exists s; split; [reflexivity|auto]].
+    assert (Hm : m0 < size s) by (apply HK; eapply hnd_In; eauto).
+    destruct (InsertBefore_sim _ _ _ _ _ v _ R H Hm) as (s' & E & R').
+    rewrite E. unfold ret_ptr, sret. cbn [bind].
+    exists s'. destruct (mem m0 (a_seq a (Z.to_nat l))); cbn [fst snd]; (split; [reflexivity|]); (split; [exact R'|]).
+    + apply Hok_add.
+      * eapply Hok_mono; [exact R|exact R'| |exact HK]. rewrite asize_a_set, asize_a_alloc. lia.
+      * simpl. rewrite (Rep_size _ _ R'). change (length (a_vals _)) with (asize (a_alloc a v)).
+        rewrite asize_a_alloc. unfold fresh, asize. lia.
+    + eapply Hok_mono; [exact R|exact R'| |exact HK]. lia.
+  - (* LInsertAfter *)
+    destruct (ok_lt _ _ OK) as (r & o & H).
+    destruct (hnd h m) as [m0|] eqn:Eh; cbn [spanic fst snd]; [|exists s; split; [reflexivity|auto]].
+    assert (Hm : m0 < size s) by (apply HK; eapply hnd_In; eauto).
+    destruct (InsertAfter_sim _ _ _ _ _ v _ R H Hm) as (s' & E & R').
+    rewrite E. unfold ret_ptr, sret. cbn [bind].
+    exists s'. destruct (mem m0 (a_seq a (Z.to_nat l))); cbn [fst snd]; (split; [reflexivity|]); (split; [exact R'|]).
+    + apply Hok_add.
+      * eapply Hok_mono; [exact R|exact R'| |exact HK]. rewrite asize_a_set, asize_a_alloc. lia.
+      * simpl. rewrite (Rep_size _ _ R'). change (length (a_vals _)) with (asize (a_alloc a v)).
+        rewrite asize_a_alloc. unfold fresh, asize. lia.
+    + eapply Hok_mono; [exact R|exact R'| |exact HK]. lia.
+  - (* LRemove *)
+    destruct (ok_lt _ _ OK) as (r & o & H).
+    destruct (hnd h e) as [e0|] eqn:Eh; cbn [spanic fst snd]; [|exists s; split; [reflexivity|auto]].
+    assert (He : e0 < size s) by (apply HK; eapply hnd_In; eauto).
+    destruct (Remove_sim _ _ _ _ _ _ R H He) as (s' & E & R').
+    rewrite E. cbn [bind].
+    exists s'. split; [reflexivity|]. split; [exact R'|].
+    eapply Hok_mono; [exact R|exact R'| |exact HK].
+    destruct (mem e0 (a_seq a (Z.to_nat l))); rewrite ?asize_a_set; lia.
+  - (* LMoveToFront *)
+    destruct (ok_lt _ _ OK) as (r & o & H).
+    destruct (hnd h e) as [e0|] eqn:Eh; cbn [spanic fst snd]; [|exists s; split; [reflexivity|auto]].
+    assert (He : e0 < size s) by (apply HK; eapply hnd_In; eauto).
+    destruct (MoveToFront_sim _ _ _ _ _ _ R H He) as (s' & E & R').
+    unfold ret_unit. rewrite E. cbn [bind].
+    exists s'. split; [reflexivity|]. split; [exact R'|].
+    eapply Hok_mono; [exact R|exact R'| |exact HK].
+    destruct (mem e0 (a_seq a (Z.to_nat l))); rewrite ?asize_a_set; lia.
+  - (* LMoveToBack *)
+    destruct (ok_lt _ _ OK) as (r & o & H).
+    destruct (hnd h e) as [e0|] eqn:Eh; cbn [spanic fst snd]; [|exists s; split; [reflexivity|auto]].
+    assert (He : e0 < size s) by (apply HK; eapply hnd_In; eauto).
+    destruct (MoveToBack_sim _ _ _ _ _ _ R H He) as (s' & E & R').
+    unfold ret_unit. rewrite E. cbn [bind].
+    exists s'. split; [reflexivity|]. split; [exact R'|].
+    eapply Hok_mono; [exact R|exact R'| |exact HK].
+    destruct (mem e0 (a_seq a (Z.to_nat l))); rewrite ?asize_a_set; lia.
+  - (* LMoveBefore *)
+    destruct (ok_lt _ _ OK) as (r & o & H).
+    destruct (hnd h e) as [e0|] eqn:Eh; cbn [spanic fst snd]; [|exists s; split; [reflexivity|auto]].
+    assert (He : e0 < size s) by (apply HK; eapply hnd_In; eauto).
+    destruct (hnd h m) as [m0|] eqn:Ehm.
+    + assert (Hm : m0 < size s) by (apply HK; eapply hnd_In; eauto).
+      destruct (MoveBefore_sim _ _ _ _ _ _ _ R H He Hm) as (s' & E & R').
+      unfold ret_unit. rewrite E. cbn [bind ptr_eqb option_eqb].
+      exists s'.
+      destruct (mem e0 (a_seq a (Z.to_nat l))); cbn [negb fst snd] in *; [|split; [reflexivity|]; split; [exact R'|]; eapply Hok_mono; [exact R|exact R'|lia|exact HK]].
+      destruct (e0 =? m0); cbn [fst snd] in *; [split; [reflexivity|]; split; [exact R'|]; eapply Hok_mono; [exact R|exact R'|lia|exact HK]|].
+      split; [reflexivity|]. split; [exact R'|].
+      eapply Hok_mono; [exact R|exact R'| |exact HK].
+      destruct (mem m0 (a_seq a (Z.to_nat l))); rewrite ?asize_a_set; lia.
+    + (* mark is nil: panics only if e is an element of l *)
+      unfold ret_unit, list_MoveBefore. hstep. rewrite (Rep_guard _ _ _ _ _ e0 R H).
+      destruct (mem e0 (a_seq a (Z.to_nat l))); cbn [negb ptr_eqb option_eqb bind spanic fst snd]; rewrite ?rd_nil; cbn [bind];
+      exists s; (split; [reflexivity|auto]).
+  - (* LMoveAfter *)
+    destruct (ok_lt _ _ OK) as (r & o & H).
+    destruct (hnd h e) as [e0|] eqn:Eh; cbn [spanic fst snd]; [|exists s; split; [reflexivity|auto]].
+    assert (He : e0 < size s) by (apply HK; eapply hnd_In; eauto).
+    destruct (hnd h m) as [m0|] eqn:Ehm.
+    + assert (Hm : m0 < size s) by (apply HK; eapply hnd_In; eauto).
+      destruct (MoveAfter_sim _ _ _ _ _ _ _ R H He Hm) as (s' & E & R').
+      unfold ret_unit. rewrite E. cbn [bind ptr_eqb option_eqb].
+      exists s'.
+      destruct (mem e0 (a_seq a (Z.to_nat l))); cbn [negb fst snd] in *; [|split; [reflexivity|]; split; [exact R'|]; eapply Hok_mono; [exact R|exact R'|lia|exact HK]].
+      destruct (e0 =? m0); cbn [fst snd] in *; [split; [reflexivity|]; split; [exact R'|]; eapply Hok_mono; [exact R|exact R'|lia|exact HK]|].
+      split; [reflexivity|]. split; [exact R'|].
+      eapply Hok_mono; [exact R|exact R'| |exact HK].
+      destruct (mem m0 (a_seq a (Z.to_nat l))); rewrite ?asize_a_set; lia.
+    + unfold ret_unit, list_MoveAfter. hstep. rewrite (Rep_guard _ _ _ _ _ e0 R H).
+      destruct (mem e0 (a_seq a (Z.to_nat l))); cbn [negb ptr_eqb option_eqb bind spanic fst snd]; rewrite ?rd_nil; cbn [bind];
+      exists s; (split; [reflexivity|auto]).
+  - (* LPushBackList *)
+    apply andb_true_iff in OK as [OK1 OK2].
+    destruct (ok_lt _ _ OK1) as (r & ol & H). apply Nat.ltb_lt in OK2.
+    destruct (PushBackList_sim _ _ _ _ _ _ R H OK2) as (s' & E & R').
+    unfold ret_unit. rewrite E. cbn [bind fst snd].
+    exists s'. split; [reflexivity|]. split; [exact R'|].
+    eapply Hok_mono; [exact R|exact R'| |exact HK]. rewrite asize_a_set, asize_a_alloc_copies. lia.
+  - (* LPushFrontList *)
+    apply andb_true_iff in OK as [OK1 OK2].
+    destruct (ok_lt _ _ OK1) as (r & ol & H). apply Nat.ltb_lt in OK2.
+    destruct (PushFrontList_sim _ _ _ _ _ _ R H OK2) as (s' & E & R').
+    unfold ret_unit. rewrite E. cbn [bind fst snd].
+    exists s'. split; [reflexivity|]. split; [exact R'|].
+    eapply Hok_mono; [exact R|exact R'| |exact HK]. rewrite asize_a_set, asize_a_alloc_copies. lia.
+  - (* LNext *)
+    destruct (hnd h e) as [e0|] eqn:Eh; cbn [spanic fst snd]; [|exists s; split; [reflexivity|auto]].
+    assert (He : e0 < size s) by (apply HK; eapply hnd_In; eauto).
+    destruct (NextPrev_sim _ _ _ R He) as [EN _].
+    pose proof (elem_Next_ptr_ok _ _ _ _ R He EN) as PK.
+    rewrite EN. unfold ret_ptr, sret. cbn [bind fst snd]. fold (spec_next a e0).
+    exists s. split; [reflexivity|]. split; [exact R|]. apply Hok_add; auto.
+  - (* LPrev *)
+    destruct (hnd h e) as [e0|] eqn:Eh; cbn [spanic fst snd]; [|exists s; split; [reflexivity|auto]].
+    assert (He : e0 < size s) by (apply HK; eapply hnd_In; eauto).
+    destruct (NextPrev_sim _ _ _ R He) as [_ EP].
+    pose proof (elem_Prev_ptr_ok _ _ _ _ R He EP) as PK.
+    rewrite EP. unfold ret_ptr, sret. cbn [bind fst snd]. fold (spec_prev a e0).
+    exists s. split; [reflexivity|]. split; [exact R|]. apply Hok_add; auto.
+Qed.
+
+Lemma Rep_init : Rep (State [] []) init_astate.
+Proof.
+  constructor; cbn.
+  - split; auto. intros j Hj. unfold size in Hj. simpl in Hj. lia.
+  - split; auto. intros [|l] r o; discriminate.
+  - split; [constructor|]. intros e [].
+  - intros [|l] r; discriminate.
+  - intros [|l] r xs; discriminate.
+  - intros e l H. unfold ow, proj in H. simpl in H. destruct e; discriminate.
+  - intros e _ _. unfold nx, pv, proj. simpl. destruct e; auto.
+Qed.
+
+Lemma run_from_sim ops : forall s a h os a' h',
+  Rep s a -> Hok s h -> spec_run_from a h ops = (os, a', h', true) ->
+  exists s', run_from (RState s h) ops = (os, RState s' h') /\ Rep s' a' /\ Hok s' h'.
+Proof.
+  induction ops as [|op ops IH]; intros s a h os a' h' R HK E; cbn [spec_run_from run_from] in *.
+  - injection E as <- <- <-. eauto.
+  - destruct (spec_exec op a h) as [[o a1] h1] eqn:E1.
+    destruct (spec_run_from a1 h1 ops) as [[[os2 a2] h2] ok2] eqn:E2.
+    injection E as <- <- <- Eok. apply andb_true_iff in Eok as [OK ->].
+    destruct (exec_sim op s a h R HK OK) as (s1 & Es & R1 & HK1).
+    rewrite E1 in Es, R1, HK1. cbn [fst snd] in *. rewrite Es.
+    destruct (IH _ _ _ _ _ _ R1 HK1 E2) as (s' & E' & R' & HK').
+    rewrite E'. eauto.
+Qed.
+
+(* The pointer model refines the sequence semantics on every covered history:
+   same outputs, same handle table, and the final heap represents the final
+   abstract state. *)
+Theorem list_refines_spec ops os a h :
+  spec_run ops = (os, a, h, true) ->
+  exists s, run ops = (os, RState s h) /\ Rep s a.
+Proof.
+  intro E. unfold spec_run in E. unfold run, init_rstate.
+  destruct (run_from_sim ops _ _ [] _ _ _ Rep_init (fun e (I : In e []) => match I with end) E) as (s & E' & R & _).
+  eauto.
+Qed.
+
+(* ---- panics ---- *)
+Definition nil_arg (op : lop) (h : list nat) : bool :=
+  match op with
+  | LInsertBefore _ _ m | LInsertAfter _ _ m => ptr_eqb (hnd h m) None
+  | LRemove _ e | LMoveToFront _ e | LMoveToBack _ e | LNext e | LPrev e => ptr_eqb (hnd h e) None
+  | LMoveBefore _ e m | LMoveAfter _ e m => ptr_eqb (hnd h e) None || ptr_eqb (hnd h m) None
+  | _ => false
+  end.
+
+Lemma spec_panic op a h k :
+  fst (fst (spec_exec op a h)) = OPanic k ->
+  k = NilDeref /\ nil_arg op h = true /\ spec_exec op a h = (OPanic NilDeref, a, h).
+Proof.
+  destruct op; cbn [spec_exec nil_arg]; unfold sret, spanic; cbn [fst snd]; try discriminate;
+    repeat match goal with
+           | |- context[match hnd ?h ?e with _ => _ end] => destruct (hnd h e) eqn:?
+           | |- context[if ?b then _ else _] => destruct b eqn:?
+           end; cbn [fst snd ptr_eqb option_eqb orb]; try discriminate;
+    intro E; injection E as <-; rewrite ?orb_true_r; auto.
+Qed.
+
+(* ---- traversals ---- *)
+Lemma NoDup_bound xs n : NoDup xs -> (forall x, In x xs -> x < n) -> length xs <= n.
+Proof.
+  intros D B. rewrite <- (seq_length n 0). apply NoDup_incl_length; auto.
+  intros x I. apply in_seq. specialize (B x I). lia.
+Qed.
+
+Lemma walk_next_suffix s a l r xs :
+  Rep s a -> nth_error (a_lists a) l = Some (r, Some xs) ->
+  forall suf pre fuel, xs = pre ++ suf -> length suf < fuel -> walk elem_Next fuel s (head suf) = Ok suf.
+Proof.
+  intros R H. induction suf as [|y t IH]; intros pre fuel E L; [destruct fuel; reflexivity|].
+  destruct fuel as [|f]; [simpl in L; lia|]. cbn [head walk].
+  subst xs. rewrite (Next_in_list _ _ _ _ _ _ _ R H). cbn [bind].
+  rewrite (IH (pre ++ [y]) f); [reflexivity| |simpl in L; lia].
+  rewrite <- app_assoc. reflexivity.
+Qed.
+
+Lemma walk_prev_prefix s a l r xs :
+  Rep s a -> nth_error (a_lists a) l = Some (r, Some xs) ->
+  forall pre suf fuel, xs = pre ++ suf -> length pre < fuel -> walk elem_Prev fuel s (last_opt pre) = Ok (rev pre).
+Proof.
+  intros R H. induction pre as [|y t IH] using rev_ind; intros suf fuel E L; [destruct fuel; reflexivity|].
+  rewrite app_length in L. simpl in L.
+  destruct fuel as [|f]; [lia|]. rewrite last_opt_snoc. cbn [walk].
+  subst xs. rewrite <- app_assoc in H. simpl in H.
+  rewrite (Prev_in_list _ _ _ _ _ _ _ R H). cbn [bind].
+  rewrite (IH (y :: suf) f); [rewrite rev_unit; reflexivity| |lia].
+  rewrite <- app_assoc. reflexivity.
+Qed.
+
+Theorem walks_sim s a l :
+  Rep s a -> l < length (a_lists a) ->
+  walk_fwd s l = Ok (a_seq a l) /\ walk_bwd s l = Ok (rev (a_seq a l)).
+Proof.
+  intros R Hl. destruct (nth_error_lt_exists _ _ Hl) as ([r o] & H).
+  unfold walk_fwd, walk_bwd. rewrite (Front_sim _ _ _ _ _ R H), (Back_sim _ _ _ _ _ R H). cbn [bind].
+  rewrite (a_seq_nth _ _ _ _ H). destruct o as [xs|]; [|split; reflexivity].
+  destruct (R_init _ _ R _ _ _ H) as (_ & D & O).
+  assert (B : length xs <= size s).
+  { apply NoDup_bound; auto. intros x I. eapply ow_lt; eauto. }
+  fold (size s). split.
+  - apply (walk_next_suffix _ _ _ _ _ R H xs [] (S (size s))); auto. lia.
+  - apply (walk_prev_prefix _ _ _ _ _ R H xs [] (S (size s))); [rewrite app_nil_r; auto|lia].
+Qed.
+
+(* ---- handles that are not elements of l: nothing at all is written ---- *)
+Theorem foreign_handle_noop s l e :
+  e < size s -> ow s e <> Some l ->
+  list_Remove l (Some e) s = Ok (vl s e, s) /\
+  (forall v, list_InsertBefore l v (Some e) s = Ok (None, s)) /\
+  (forall v, list_InsertAfter l v (Some e) s = Ok (None, s)) /\
+  list_MoveToFront l (Some e) s = Ok s /\
+  list_MoveToBack l (Some e) s = Ok s /\
+  (forall m, list_MoveBefore l (Some e) m s = Ok s) /\
+  (forall m, list_MoveAfter l (Some e) m s = Ok s) /\
+  (forall x, x < size s -> list_MoveBefore l (Some x) (Some e) s = Ok s) /\
+  (forall x, x < size s -> list_MoveAfter l (Some x) (Some e) s = Ok s).
+Proof.
+  intros He N. apply ptr_eqb_neq in N.
+  repeat split; intros.
+  - unfold list_Remove. hstep. rewrite N. cbn [bind]. hstep. reflexivity.
+  - unfold list_InsertBefore. hstep. hstep. rewrite N. reflexivity.
+  - unfold list_InsertAfter. hstep. rewrite N. reflexivity.
+  - unfold list_MoveToFront. hstep. rewrite N. reflexivity.
+  - unfold list_MoveToBack. hstep. rewrite N. reflexivity.
+  - unfold list_MoveBefore. hstep. rewrite N. reflexivity.
+  - unfold list_MoveAfter. hstep. rewrite N. reflexivity.
+  - unfold list_MoveBefore. hstep. hstep. hstep. rewrite N. cbn [negb].
+    destruct (negb (ptr_eqb (ow s x) (Some l))); auto. destruct (ptr_eqb (Some x) (Some e)); auto.
+  - unfold list_MoveAfter. hstep. hstep. rewrite N. cbn [negb].
+    destruct (negb (ptr_eqb (ow s x) (Some l))); auto. destruct (ptr_eqb (Some x) (Some e)); auto.
+Qed.
+
+(* in a represented heap "not an element of l" is exactly: removed, never inserted, or in another list *)
+Lemma not_member_ow s a l r o e :
+  Rep s a -> nth_error (a_lists a) l = Some (r, o) -> ~ In e (a_seq a l) -> ow s e <> Some l.
+Proof. intros R H N O. apply N. eapply Rep_ow_iff; eauto. Qed.
+
+(* ---- PushBackList of a list onto itself appends a copy of the old contents ---- *)
+Lemma map_a_val_seq vals ws :
+  map (fun e => nth e (vals ++ ws) 0%Z) (seq (length vals) (length ws)) = ws.
+Proof.
+  revert vals; induction ws as [|w t IH]; intro vals; [reflexivity|].
+  simpl. f_equal.
+  - rewrite app_nth2, Nat.sub_diag by lia. reflexivity.
+  - specialize (IH (vals ++ [w])). rewrite <- app_assoc, app_length in IH. simpl in IH.
+    rewrite Nat.add_1_r in IH. exact IH.
+Qed.
+
+Theorem pushbacklist_values s a l o :
+  Rep s a -> l < length (a_lists a) -> o < length (a_lists a) ->
+  exists s' a', list_PushBackList l o s = Ok s' /\ Rep s' a' /\
+    a_seq a' l = a_seq a l ++ seq (fresh a) (length (a_seq a o)) /\
+    map (a_val a') (a_seq a' l) = map (a_val a) (a_seq a l) ++ map (a_val a) (a_seq a o) /\
+    (forall l', l' <> l -> a_seq a' l' = a_seq a l').
+Proof.
+  intros R Hl Ho. destruct (nth_error_lt_exists _ _ Hl) as ([r ol] & H).
+  destruct (PushBackList_sim _ _ _ _ _ _ R H Ho) as (s' & E & R').
+  eexists. eexists. split; [exact E|]. split; [exact R'|].
+  assert (Hl' : l < length (a_lists (a_alloc_copies a (a_seq a o)))) by exact Hl.
+  assert (Sq : a_seq (a_set (a_alloc_copies a (a_seq a o)) l (a_seq a l ++ copies a (a_seq a o))) l =
+               a_seq a l ++ copies a (a_seq a o)).
+  { rewrite a_seq_a_set, Nat.eqb_refl; auto. }
+  split; [exact Sq|]. split.
+  - rewrite Sq, map_app. f_equal.
+    + apply map_ext_in. intros x Ix. unfold a_val, a_set, a_alloc_copies; cbn [a_vals].
+      apply app_nth1. rewrite <- (Rep_size _ _ R). eapply a_seq_owned_lt; eauto.
+    + unfold copies, fresh, a_val, a_set, a_alloc_copies; cbn [a_vals].
+      rewrite <- (map_length (fun e => nth e (a_vals a) 0%Z) (a_seq a o)) at 1.
+      apply map_a_val_seq.
+  - intros l' N. rewrite a_seq_a_set by auto. apply Nat.eqb_neq in N. rewrite N. reflexivity.
 Qed.
